@@ -42,6 +42,10 @@ def unwrap_opt(interp, st, v, what='value'):
 
 # ------------------------------------------------------------------ arithmetic
 def binop(interp, st, op, a, b):
+    for x in (a, b):
+        if isinstance(x, SV) and hasattr(x.ty, 'binop'):
+            yield from x.ty.binop(interp, st, op, a, b)
+            return
     a, b = unwrap_opt(interp, st, a, 'operand'), unwrap_opt(interp, st, b, 'operand')
     concrete = not isinstance(a, SV) and not isinstance(b, SV) and not isinstance(a, PyRef) and not isinstance(b, PyRef)
     if concrete and isinstance(a, (int, float, str, bytes, tuple)) and isinstance(b, (int, float, str, bytes, tuple)):
@@ -917,6 +921,10 @@ def iterspec(interp, st, v):
         return it
     if isinstance(v, SV) and hasattr(v.ty, 'iterspec'):
         return v.ty.iterspec(interp, st, v)
+    from .models import MapVal
+    if isinstance(v, MapVal) and hasattr(v.f, 'pure'):
+        src = iterspec(interp, st, v.over)
+        return IterSpec(src.n, lambda k: v.f.pure(src.elem(k)), src.assumptions)
     raise Unsupported(f'iteration over {v!r}')
 
 
